@@ -48,7 +48,7 @@ def order_snap(o):
                     type=o._type.name if o._type is not None else None, fprice=fnum(o._frozen_price),
                     qty=fnum(o._quantity), filled=fnum(o._filled_quantity), avg=fnum(o._avg_price),
                     tcost=fnum(o._transaction_cost), reserve=fnum(o._init_frozen_cash), status=st,
-                    msg=(o._message or '')[:60])
+                    msg=(o._message or '')[:200])
     except Exception as e:
         return dict(err=repr(e))
 
@@ -185,6 +185,37 @@ class Recorder(object):
         for ev in EVENT:
             bus.prepend_listener(ev, self._first(ev))
             bus.add_listener(ev, self._last(ev))
+        self._wrap_matchers()
+
+    def _wrap_matchers(self):
+        """bracket every matcher.match call with marks (harness-side proxy; nothing in /repo is changed)"""
+        br = self.env.broker
+        orig = getattr(br, '_get_matcher', None)
+        if orig is None:
+            return
+        rec = self
+        proxies = {}
+
+        class Proxy(object):
+            def __init__(self, real):
+                object.__setattr__(self, '_real', real)
+
+            def __getattr__(self, k):
+                return getattr(object.__getattribute__(self, '_real'), k)
+
+            def match(self, account, order, open_auction):
+                rec.mark('match0', order=order_snap(order), auction=bool(open_auction), acc=account.type)
+                try:
+                    return object.__getattribute__(self, '_real').match(account, order, open_auction)
+                finally:
+                    rec.mark('match1', order=order_snap(order), auction=bool(open_auction), acc=account.type)
+
+        def get_matcher(order_book_id):
+            m = orig(order_book_id)
+            if id(m) not in proxies:
+                proxies[id(m)] = Proxy(m)
+            return proxies[id(m)]
+        br._get_matcher = get_matcher
 
     def _payload(self, e):
         out = {}
